@@ -98,7 +98,15 @@ class ConnectionManager:
 
         # iterate over a copy - a callback may (un)register callbacks
         for connection_state_change_cb in tuple(self._connection_state_changed_cbs):
-            connection_state_change_cb(state)
+            try:
+                connection_state_change_cb(state)
+            except Exception:  # pylint: disable=broad-except
+                # a failing listener must not keep the others from hearing of the
+                # change, nor break the connection handling that reports it
+                logger.exception(
+                    "Unexpected error in connection_state_changed callback for %s",
+                    state,
+                )
 
     @property
     def state(self) -> XknxConnectionState:
